@@ -208,7 +208,10 @@ func RunHarness(p *Program, cfg Config, name string) (*Result, error) {
 							e.mu.Unlock()
 						}
 					}()
+					in.replaced = map[string]value{}
 					setupVal = call(in, nil, token.NoPos, setup, nil)
+					// replacements installed by the setup part hold on every path
+					in.setupReplaced = in.replaced
 				}()
 			}
 			if setupOK {
@@ -298,6 +301,9 @@ func (w *worker) runPath(fn *ssa.Function, prefix []entry, hasSetup bool, setupV
 	in.depth = 0
 	in.lastNow = nil
 	in.replaced = map[string]value{}
+	for k, v := range in.setupReplaced {
+		in.replaced[k] = v
+	}
 	in.notes = nil
 	outcome := "completed"
 	func() {
